@@ -165,16 +165,41 @@ pub fn rdata(r: &RData) -> String {
         ),
         RData::DHCID(d) => format!("F 49 3 i {} i {} b {}", d.identifier, d.digest_type, hex(&d.digest)),
         RData::NULL(code, n) => format!("U {} {}", code, hex(n.get_data())),
-        RData::Empty(t) => format!("E {}", u16::from(*t)),
+        RData::Empty(t) => format!("E {}", type_code(*t)),
     }
+}
+
+/// The code a question type / class stands for, read off the VARIANT (not through the library's own `u16::from`, which is
+/// what the writers use: a conversion that collapses two variants into one code would otherwise look the same on both
+/// sides of every comparison). Types go through their mnemonic and the IANA table of props/c18.rs.
+pub fn qtype_code(q: QTYPE) -> u16 {
+    match q {
+        QTYPE::IXFR => 251,
+        QTYPE::AXFR => 252,
+        QTYPE::MAILB => 253,
+        QTYPE::MAILA => 254,
+        QTYPE::ANY => 255,
+        QTYPE::TYPE(t) => type_code(t),
+    }
+}
+
+pub fn type_code(t: TYPE) -> u16 {
+    if let TYPE::Unknown(n) = t { return n; }
+    let m = format!("{:?}", t);
+    let m = m.split('(').next().unwrap_or("").to_string();
+    crate::props::c18::iana_code(&m).unwrap_or_else(|| u16::from(t))
+}
+
+pub fn qclass_code(q: QCLASS) -> u16 {
+    match q { QCLASS::ANY => 255, QCLASS::CLASS(c) => c as u16 }
 }
 
 pub fn question(q: &Question) -> String {
     format!(
         "{} {} {} {}",
         name(&q.qname),
-        u16::from(q.qtype),
-        u16::from(q.qclass),
+        qtype_code(q.qtype),
+        qclass_code(q.qclass),
         q.unicast_response as u8
     )
 }
